@@ -85,6 +85,7 @@ func genGraph(t *rapid.T) Graph {
 func genCase(t *rapid.T) Case {
 	g := genGraph(t)
 	c := Case{N: g.N, Edges: g.Edges}
+	c.Nested = rapid.IntRange(0, 4).Draw(t, "nestedNames") == 0
 	for range g.Edges {
 		c.Modes = append(c.Modes, rapid.SampledFrom([]int{0, 0, 0, 1, 2}).Draw(t, "mode"))
 	}
